@@ -19,7 +19,10 @@ RULE = ('abstract FRU images (every subset of internal/chassis/board/product/mul
         'Lean SPEC encoder (Spec/FruFormat.lean, written from the storage definition) and parsed by the real code as '
         'bytes, as array("B"), as list, from a file (get_fru_inventory_from_file) and through Ipmi.get_fru_inventory '
         'on a byte-level FRU device; every attribute is compared with the spec view (property) and with the Lean '
-        'model of the parser (tie).  Alteration stream: single-byte alterations of sampled images at every position '
+        'model of the parser (tie); on the device every area is ALSO read through its own getter '
+        '(get_fru_chassis_area / _board_area / _product_area / _multirecord_area, real parsers) and compared with the '
+        'spec view\'s slot - None for an area the image does not have (property only; signatures '
+        'C15:device-getter:<getter>[:absent-area]).  Alteration stream: single-byte alterations of sampled images at every position '
         '(quick: boundary + seeded values per position, thorough: all 255), as bytes, as array and - every info-area '
         'length byte and a sample of the other positions - through the FRU device; a covered byte must be rejected; an '
         'info-area length byte (quick: 0, 1, FFh, the neighbours of the old value and the one value for which the truncated '
@@ -589,6 +592,45 @@ def real_device(data):
         return exc_tag(e)
 
 
+GETTERS = (('chassis', 'get_fru_chassis_area', 'C'), ('board', 'get_fru_board_area', 'B'),
+           ('product', 'get_fru_product_area', 'P'), ('multirecord', 'get_fru_multirecord_area', 'M'))
+
+
+def real_device_getters(data):
+    """every area through ITS OWN getter (get_fru_chassis_area ... get_fru_multirecord_area) on a fresh FRU device,
+    with the real parsers: 'C:… B:… P:… M:…' in the vocabulary of canon_areas, an exception tag in place of an
+    area whose getter raised"""
+    parts = []
+    for kind, name, letter in GETTERS:
+        try:
+            a = getattr(make_device(data), name)(fru_id=0)
+            parts.append('%s:%s' % (letter, canon_multi(a) if kind == 'multirecord' else canon_area(kind, a)))
+        except Exception as e:  # noqa
+            parts.append('%s:%s' % (letter, exc_tag(e)))
+    return ' '.join(parts)
+
+
+def judge_getters(ctx, label, hexs, view, got):
+    """property, device path through the single-area getters: each yields exactly the area that was encoded -
+    and None (what FruInventory carries) for an area the image does not have"""
+    want = _areas_part(view)
+    if got == want:
+        return True
+    for (kind, name, letter), w, g in zip(GETTERS, want.split(' '), got.split(' ')):
+        if w == g:
+            continue
+        absent = w == letter + ':n'
+        ctx.violate('C15:device-getter:%s%s' % (name, ':absent-area' if absent else ''),
+                    'a well-formed FRU image (%s) stored in a FRU device: %s() %s' % (
+                        label, name, 'does not report the %s area as encoded' % kind if not absent else
+                        'yields %s for an area the image does not have (common header offset byte 00h)' % (
+                            'an area object with values that were never encoded' if not g[2:].startswith(('py:', 'Decoding'))
+                            else g[2:])),
+                    {'op': 'valid', 'hex': hexs, 'kind': 'devget', 'view': view, 'label': label, 'getter': name},
+                    expected=w, observed=g[:300])
+    return False
+
+
 def device_store(image, size=None):
     """the bytes make_device(image) stores"""
     n = len(image)
@@ -1115,6 +1157,14 @@ def _run(ctx):
         judge_valid(ctx, label, hexs, view, feat, 'dev', real)
         if m_dev != real:
             ctx.disagree('parse-valid-device', {'label': label, 'hex': hexs}, m_dev, real)
+        # device path, every area through its own getter (property only: what a getter must yield is the spec view's
+        # slot - None for an area the image does not have; the transfer under it is C10)
+        got = real_device_getters(data)
+        ctx.case(('valid', 'devget', hexs), nontrivial=len(data) > 8)
+        ctx.count('stream:valid:device-getters')
+        for part in _areas_part(view).split(' '):
+            ctx.count('device-getter-on:%s' % ('absent-area' if part[2:] == 'n' else 'present-area'))
+        judge_getters(ctx, label, hexs, view, got)
         # date (modelled, not verified): civil date of the spec vs datetime
         if img.get('board') is not None:
             want = drv.ask('date %d' % img['board']['minutes'])
@@ -1331,6 +1381,13 @@ def replay(ctx, v):
         if op == 'valid':
             data = lean.unhex(case['hex'])
             kind = case['kind']
+            if kind == 'devget':
+                real, want = real_device_getters(data), _areas_part(case['view'])
+                print('image (%d bytes) in a FRU device, every area through its own getter (%s reported)' % (
+                    len(data), case.get('getter')))
+                print('  spec view : %s' % want)
+                print('  real code : %s' % real)
+                return real != want
             real = real_device(data) if kind == 'dev' else real_parse(data, kind)
             want = 'ok ' + (case['view'] if kind != 'dev' else _areas_part(case['view']))
             print('image (%d bytes) as %s' % (len(data), kind))
